@@ -16,8 +16,10 @@
 //!  * accepted broadcast (code 0 or TxInMempoolCache)  => V += 1;
 //!    sequence mismatch "expected E"                     => V := E;
 //!    other rejections / errors                          => V unchanged;
-//!    a confirmation ending with Rejected (non-sequence code) => V := sequence of that tx
-//!    (the documented roll-back), applied when the call completes;
+//!    a confirmation ending with Rejected (non-sequence code) of a tx signed with s => the
+//!    belief may stay V or become s (the statement leaves it open): V becomes the set {V, s}
+//!    when the call completes; the next fresh signing must use an admissible value and
+//!    collapses the set; +1 / resync apply to every admissible value;
 //!  * every BroadcastTx of a submission that already has an accepted broadcast (re-broadcast
 //!    after Evicted / Unknown) is byte-identical to the accepted one;
 //!  * `BroadcastedTx` handed to the caller (bytes, sequence) is the accepted one.
@@ -290,7 +292,10 @@ enum Phase {
 }
 
 struct Model {
-    v: u64,
+    /// admissible values of the believed sequence (a single value except after a Rejected
+    /// confirmation, where the statement leaves the belief open between V and the rejected
+    /// transaction's sequence)
+    v: Vec<u64>,
     phase: Vec<Phase>,
     /// sequence of the last Rejected(non-sequence code) status given to the submission
     pending_rollback: Vec<Option<u64>>,
@@ -407,7 +412,7 @@ async fn execute(cfg: &Config, seed: u64, ch: &mut Chooser, keep: bool) -> Run {
     let k = cfg.estimate.len();
     let total = k + 1; // + the final probe submission
     let mut m = Model {
-        v: S0,
+        v: vec![S0],
         phase: vec![Phase::Signing; total],
         pending_rollback: vec![None; total],
         sleeping: vec![false; total],
@@ -464,13 +469,15 @@ async fn execute(cfg: &Config, seed: u64, ch: &mut Chooser, keep: bool) -> Run {
                             Phase::Signing => {
                                 count(&EV_FRESH, keep);
                                 m.trace.push(format!("fresh sub{} seq{}", d.sub, d.sequence));
-                                if d.sequence != m.v {
-                                    let v = m.v;
+                                if !m.v.contains(&d.sequence) {
+                                    let v = m.v.clone();
                                     m.violation(
                                         "signed-with-unexpected-sequence",
-                                        format!("submission {} broadcast a transaction signed with sequence {} while the client's current sequence is {}", d.sub, d.sequence, v),
+                                        format!("submission {} broadcast a transaction signed with sequence {} while the client's current sequence is {:?}", d.sub, d.sequence, v),
                                     );
                                 }
+                                // the signing shows which admissible belief the client holds
+                                m.v = vec![d.sequence];
                                 if !d.sig_ok {
                                     m.violation("signature-does-not-cover-sequence", format!("submission {}: signature does not verify over the broadcast body/auth_info (sequence {})", d.sub, d.sequence));
                                 }
@@ -505,13 +512,14 @@ async fn execute(cfg: &Config, seed: u64, ch: &mut Chooser, keep: bool) -> Run {
                             Ok(d) if d.sub < total => {
                                 count(&EV_SIMULATE, keep);
                                 m.trace.push(format!("simulate sub{} seq{}", d.sub, d.sequence));
-                                if d.sequence != m.v {
-                                    let v = m.v;
+                                if !m.v.contains(&d.sequence) {
+                                    let v = m.v.clone();
                                     m.violation(
                                         "signed-with-unexpected-sequence",
-                                        format!("submission {} simulated a transaction signed with sequence {} while the client's current sequence is {}", d.sub, d.sequence, v),
+                                        format!("submission {} simulated a transaction signed with sequence {} while the client's current sequence is {:?}", d.sub, d.sequence, v),
                                     );
                                 }
+                                m.v = vec![d.sequence];
                             }
                             other => m.violation("undecodable-request", format!("simulated tx: {other:?}")),
                         }
@@ -549,7 +557,12 @@ async fn execute(cfg: &Config, seed: u64, ch: &mut Chooser, keep: bool) -> Run {
                     if let Some(seq) = m.pending_rollback[call].take() {
                         if res.starts_with("TxRejected(") {
                             count(&EV_ROLLBACK, keep);
-                            m.v = seq;
+                            // the statement does not fix the belief after a rejected confirmation:
+                            // it may stay as it is or go back to the rejected transaction's sequence
+                            if !m.v.contains(&seq) {
+                                m.v.push(seq);
+                                m.v.sort();
+                            }
                         }
                     }
                     results[call] = Some(if res == "Ok" { SubResult::Ok { height: w["height"].as_u64().unwrap_or(0) } } else { SubResult::Err(res) });
@@ -621,14 +634,14 @@ async fn execute(cfg: &Config, seed: u64, ch: &mut Chooser, keep: bool) -> Run {
                             if a == BAns::MempoolCache {
                                 count(&EV_CACHE_HIT, keep);
                             }
-                            m.v += 1;
+                            m.v.iter_mut().for_each(|x| *x += 1);
                             let hash = sha_hex_upper(&tx_bytes);
                             hash_to_sub.insert(hash.clone(), sub);
                             m.phase[sub] = Phase::Confirming { tx: tx_bytes.clone(), hash, sequence: s };
                         }
                         BAns::Mismatch { expected, .. } => {
                             count(&EV_RESYNC, keep);
-                            m.v = *expected;
+                            m.v = vec![*expected];
                         }
                         BAns::Rejected | BAns::GrpcError => count(&EV_REJECTION, keep),
                     }
@@ -674,7 +687,7 @@ async fn execute(cfg: &Config, seed: u64, ch: &mut Chooser, keep: bool) -> Run {
                 match &a {
                     EAns::Mismatch { expected } => {
                         count(&EV_RESYNC, keep);
-                        m.v = *expected;
+                        m.v = vec![*expected];
                     }
                     EAns::OtherError => count(&EV_REJECTION, keep),
                     EAns::Ok => {}
@@ -702,7 +715,7 @@ async fn execute(cfg: &Config, seed: u64, ch: &mut Chooser, keep: bool) -> Run {
         EXECS_NONTRIVIAL.fetch_add(1, Ordering::Relaxed);
     }
     if keep && std::env::var("C43_DEBUG").is_ok() {
-        eprintln!("TRACE (final V={}):\n  {}", m.v, m.trace.join("\n  "));
+        eprintln!("TRACE (final V={:?}):\n  {}", m.v, m.trace.join("\n  "));
     }
     let obs = fnv64(m.trace.join("|").as_bytes());
     Run { taken_obs: obs, class, viol: m.viol, events }
@@ -811,7 +824,7 @@ fn main() {
             rule: "executions of the real GrpcClient (broadcast_message / broadcast_blobs + confirm) over the fake node: 1..3 concurrent submissions from one client (see `configs`: per submission message or blob submission, explicit gas or gas estimation; menu width; deviation bound), choice points = which outstanding request to answer next / let the polling timers fire, and the answer: BroadcastTx {ok, sequence mismatch expecting s+1 / s-1 / s+2, TxInMempoolCache, other rejection, (wide: legacy sequence code, gRPC failure)}, re-broadcast {ok, mismatch, cache, rejection}, TxStatus {committed, pending, committed-failed, rejected other code, rejected sequence code, evicted, unknown, (wide: gRPC failure)}, EstimateGasPriceAndUsage {ok, mismatch s+1 / s-1 / s+2, other error}; all executions with at most `bound` non-default choices (default: oldest request, honest success), each followed by one honest probe submission; horizon 60 answered requests.  evaluation = one execution; non-trivial = at least one non-default choice; state = distinct observation trace; transition = one answered request",
             assumptions: &[
                 "the model treats gRPC codes 32 (WrongSequence) and 3 (InvalidSequence) as the sequence-mismatch codes and 'account sequence mismatch, expected N,' as the node's message format (celestia-app / cosmos-sdk)",
-                "roll-back of the believed sequence after a Rejected (non-sequence code) confirmation is taken from the documented behaviour of confirm_tx and is applied when the call completes",
+                "the statement does not fix the belief after a Rejected (non-sequence code) confirmation: from the completion of that call the model admits both the unchanged value and the rejected transaction's sequence, until the next signing shows which one the client holds",
                 "polling timers fire only when the explorer lets them (explicit choice) or when nothing else is outstanding",
                 "a submission is identified by its memo; TxStatus requests by the hash the node returned",
             ],
